@@ -1,6 +1,7 @@
 import Nstd.Common.Basic
 import Nstd.Seq.Model
 import Nstd.Seq.PtrModel
+import Nstd.Seq.PtrSwap
 import Nstd.Seq.RawArray
 import Nstd.Generated.SeqConst
 /-
@@ -221,12 +222,43 @@ def ptrQueries (pp : PtrPair) (st : State) (op : Op) : Bool :=
       Ptr.find (pp.get v) x == Ptr.walk (pp.get v) (pp.get v).begin ((st.getL v).findPos x)
   | _ => true
 
+/-! `swap` in lockstep: the two separate heaps are embedded into ONE shared heap (address `x` of the first list ↦ `2x`, of the
+    second ↦ `2x + 1`, so the sentinels are the distinct addresses 0 and 1), `Ptr2.swap` — the statement-level model of
+    `List::swap` that `ptr_swap` is about and that `gen_list_swap` / `gen_pool_swap` prove equal to the translated code of the
+    current headers — runs on it, and the two objects are projected back (each with its own sentinel at 0 again).  The result
+    must represent the exchanged chain models (`ptrAgrees`). -/
+
+def mergeHeaps (a b : Ptr.PList) : Ptr2.Heap × Ptr2.Hdr × Ptr2.Hdr :=
+  let enc (z : Nat) (y : Nat) : Nat := 2 * y + z % 2
+  ({ val := fun z => if z % 2 = 0 then a.val (z / 2) else b.val (z / 2),
+     prev := fun z => (if z % 2 = 0 then a.prev (z / 2) else b.prev (z / 2)).map (enc z),
+     next := fun z => (if z % 2 = 0 then a.next (z / 2) else b.next (z / 2)).map (enc z) },
+   { begin := 2 * a.begin, size := a.size, free := a.free.map (2 * ·), blocks := a.nblocks },
+   { begin := 2 * b.begin + 1, size := b.size, free := b.free.map (2 * · + 1), blocks := b.nblocks })
+
+/-- the list object `hd` with sentinel `e` whose items have parity `par` in the shared heap, as a heap of its own -/
+def projectHeap (H : Ptr2.Heap) (hd : Ptr2.Hdr) (e par bk : Nat) : Ptr.PList :=
+  let enc (z : Nat) : Nat := if z = 0 then e else 2 * z + par
+  let dec (y : Nat) : Nat := if y = e then 0 else y / 2
+  { val := fun z => H.val (enc z), prev := fun z => (H.prev (enc z)).map dec, next := fun z => (H.next (enc z)).map dec,
+    begin := dec hd.begin, size := hd.size, free := hd.free.map dec, nblocks := hd.blocks, bk := bk }
+
+/-- `a.swap(b)` through the shared heap: (new a, new b) -/
+def swapShared (a b : Ptr.PList) : Ptr.PList × Ptr.PList :=
+  let (H, A, B) := mergeHeaps a b
+  let (H', A', B') := Ptr2.swap H 0 1 A B
+  (projectHeap H' A' 0 1 b.bk, projectHeap H' B' 1 0 a.bk)
+
 /-- advance the heaps by one op of the machine (called only for ops the chain model accepted) -/
 def ptrAdvance (pp : PtrPair) (before after : State) (op : Op) : PtrPair :=
   let pp1 : PtrPair :=
     match op with
-    | .lswap v => (pp.set v (pp.get (1 - v))).set (1 - v) (pp.get v)
-    | .pswap v => (pp.set (2 + v) (pp.get (2 + (1 - v)))).set (2 + (1 - v)) (pp.get (2 + v))
+    | .lswap v =>
+      let (x, y) := swapShared (pp.get v) (pp.get (1 - v))
+      (pp.set v x).set (1 - v) y
+    | .pswap v =>
+      let (x, y) := swapShared (pp.get (2 + v)) (pp.get (2 + (1 - v)))
+      (pp.set (2 + v) x).set (2 + (1 - v)) y
     | .lcopy v =>
       match ptrRunOps (Ptr.init lkSrc) [.insertList 0 (before.getL (1 - v)).vals] with
       | some h => pp.set v h
